@@ -320,13 +320,19 @@ class C11(Family):
     # source-text tie (notes/NOTES-py2lean-statefbk.md): Generated/Sfb*.lean are rewritten from
     # control/statefbk.py / control/stochsys.py on every run; these modules prove model = generated
     extra_modules = ["CtrlVerif.Props.C11GenGram", "CtrlVerif.Props.C11GenAcker", "CtrlVerif.Props.C11GenSpec",
-                     "CtrlVerif.Props.C11GenLqr", "CtrlVerif.Props.C11GenLqe"]
+                     "CtrlVerif.Props.C11GenLqr", "CtrlVerif.Props.C11GenLqe",
+                     # source-text tie of statesp._ssmatrix (py2lean_ssmat): the argument conversion of ctrb /
+                     # obsv / place / place_acker and of the StateSpace constructor = its specification
+                     "CtrlVerif.Props.C11GenSsMat"]
 
     def pre_build(self):
         import os
         from core import py2lean_sfb, leanproj
         problems, self.gen_info = py2lean_sfb.regenerate(os.environ.get("VERIF_REPO") or "/repo", leanproj.LEAN)
-        return problems
+        from core import py2lean_ssmat
+        p2, i2 = py2lean_ssmat.regenerate(os.environ.get("VERIF_REPO") or "/repo", leanproj.LEAN)
+        self.gen_info.update(i2)
+        return problems + p2
 
     externals = [
         "control.mateqn.care / dare (property C10; scipy.linalg.solve_continuous_are / "
@@ -1436,4 +1442,5 @@ def exmat_enc(mat, r, c):
     return [r, c, [tok(fr(x)) for x in a.flatten()]]
 
 
-FAMILY = C11
+from families import select_streams as _sel      # direct stream for statesp._ssmatrix
+FAMILY = _sel.extend(C11, _sel.SsMatrixStream())
